@@ -103,6 +103,11 @@ def generate(seed, index, tier):
         else:
             ops.append(["obs", ch.choice(OBS)])
     case["ops"] = ops
+    if index % 11 == 5:
+        import math
+
+        r = abs(float(gp.gen_number(ch, mag, positive=True, allow_zero=False))) or mag
+        case["full_arc"] = {"cx": float(gp.gen_number(ch, mag)), "cy": float(gp.gen_number(ch, mag)), "rx": r, "ry": r * ch.choice([1.0, 0.5, 2.0]), "sweep": ch.choice([1, -1]) * math.tau, "more": ch.coin(0.5)}
     return case
 
 
@@ -327,6 +332,17 @@ def execute(case, se, out, trace):
     if case["fragment"] and len(P) > 1 and type(P[0]).__name__ == "Move" and type(P[1]).__name__ not in ("Move", "Close"):
         P = se.Path(*[_copy.copy(x) for x in list(P)[1:]])
         out.count("probe:fragment-without-leading-move")
+    if case.get("full_arc"):
+        # a whole ellipse held as one Arc (start == end, sweep = +-tau): path data cannot spell it, the API can
+        fa = case["full_arc"]
+        c = se.Point(fa["cx"], fa["cy"])
+        st = se.Point(fa["cx"] + fa["rx"], fa["cy"])
+        arc = se.Arc(st, se.Point(st), c, se.Point(fa["cx"] + fa["rx"], fa["cy"]), se.Point(fa["cx"], fa["cy"] + fa["ry"]), fa["sweep"])
+        P.append(se.Move(end=se.Point(st)))
+        P.append(arc)
+        if fa.get("more"):
+            P.append(se.Line(se.Point(st), se.Point(fa["cx"], fa["cy"])))
+        out.count("probe:full-turn-arc-subpath")
     if len(P) == 0:
         out.count("skip:empty")
         return
@@ -473,14 +489,25 @@ def execute(case, se, out, trace):
         # carry a length cache filled by an earlier observer) agrees with point(t) of a cache-free copy
         scale_now = max(_scale(real), 1e-300)
         fresh = _copy.copy(P)
-        for t in (0.15, 0.5, 0.85):
+        try:
+            # fill both length caches with the same cheap settings; point(t) then only looks them up
+            fresh.length(error=1e-2 * scale_now, min_depth=1)
+            cheap = True
+        except Exception:
+            cheap = False
+        if cheap:
             try:
-                want = fresh.point(t, error=1e-4 * scale_now)
+                P.length(error=1e-2 * scale_now, min_depth=1)
+            except Exception as e:
+                raise V("parameterisation", ["raises", type(e).__name__, name], "after %s, length() of the path raised %r while a fresh copy of it measures fine" % (name, e))
+        for t in (0.15, 0.5, 0.85) if cheap else ():
+            try:
+                want = fresh.point(t, error=1e-2 * scale_now)
             except Exception:
                 out.count("skip:path-point-unavailable")
                 break
             try:
-                got = P.point(t, error=1e-4 * scale_now)
+                got = P.point(t, error=1e-2 * scale_now)
             except Exception as e:
                 raise V("parameterisation", ["raises", type(e).__name__, name], "after %s, point(%s) of the path raised %r while a fresh copy of it answers %r (stale cached lengths?)" % (name, t, e, ob.pt(want)))
             if want is None or got is None:
@@ -528,6 +555,10 @@ def shrink(case):
     if case.get("fragment"):
         c = _copy.deepcopy(case)
         c["fragment"] = False
+        yield c
+    if case.get("full_arc"):
+        c = _copy.deepcopy(case)
+        del c["full_arc"]
         yield c
     if case["style"] != 0:
         c = _copy.deepcopy(case)
